@@ -40,6 +40,13 @@ def message_shapes(facts):
     if msg is None or msg not in facts.adts:
         raise CheckerError("server rules: the Server holds no queue of a local message type")
     shapes = {}
+    a_ = facts.adt(msg)
+    if a_["kind"] == "Struct" and len(a_["variants"][0]["fields"]) == 1 and \
+            re.match(r"^std::result::Result<%s, std::io::Error>$" % re.escape(REQ), a_["variants"][0]["fields"][0]["ty"]):
+        # a newtype around io::Result<Request>
+        fn_ = a_["variants"][0]["fields"][0]["name"]
+        vn_ = a_["variants"][0]["name"]
+        return msg, {"request": ("agg", msg, vn_, {fn_: ("agg", RESULT, "Ok", {"0": RQ})}), "error": ("agg", msg, vn_, {fn_: ("agg", RESULT, "Err", {"0": ERR})})}
     for v in facts.adt(msg)["variants"]:
         tys = [x["ty"] for x in v["fields"]]
         names = [x["name"] for x in v["fields"]]
@@ -99,7 +106,26 @@ def rule_incoming_forwards_recv(ctx, rule):
     cb = [bb for bb, t in f.calls() if call_name(t) == "Server::recv"]
     good = len(cb) == 1
     detail = None
-    if good:
+    if not cb:
+        # it takes from the queue itself (through a helper shared with recv): judged like recv -- a request is yielded, an error or an
+        # unblock token ends the iteration
+        m = Q.model(facts)
+        mids = {x.id for x in m.methods}
+        f = inline.inlined(facts, inc.id, stop=lambda d: d in mids, extern_ok=Q.std_small)
+        pc = [bb for bb, t in f.calls() if call_name(t) in mids and f.local_ty(f.term(bb)["dest"]["l"]).startswith("std::option::Option<")]
+        msg, shapes = message_shapes(facts)
+        good = len(pc) == 1
+        if good:
+            t = f.term(pc[0])
+            for val, want in ((("some", shapes["request"]), ("some", RQ)), (("some", shapes["error"]), ("none",)), (("none",), ("none",))):
+                st = symex.Sym(f)
+                st.write_key(pl_key(t["dest"]), val)
+                paths = [p for p in absint.explore(f, t["target"], st) if p.end[0] not in ("diverge", "resume", "terminate", "unreachable")]
+                bad = [Q._ret_str(p) for p in paths if not (p.end[0] == "return" and absint.deep(p.state, p.ret()) == want)]
+                if bad or not paths:
+                    good = False
+                    detail = str(bad[:3])
+    elif good:
         t = f.term(cb[0])
         for val, want in ((ok(RQ), ("some", RQ)), (("agg", RESULT, "Err", {"0": ERR}), ("none",))):
             st = symex.Sym(f)
